@@ -13,7 +13,8 @@ from vlib import onto_closure as OC
 ID = "C16"
 LEVEL = "exploration"
 RULE = ("random sequences (1-8) of {assign new collection, assign the field to itself, +=, |=, append, extend, insert, "
-        "item assignment, slice assignment, add, update; the iterable arguments given as list / tuple / generator / iterator / "
+        "item assignment, slice assignment, add, update (one or several arguments), extend by itself, += / |= on the container "
+        "under another name; falsy and iterable elements / owners; the iterable arguments given as list / tuple / generator / iterator / "
         "map / reversed} on a list-valued and a set-valued managed field starting from "
         "random contents (given at construction or assigned), under several PYTHONHASHSEEDs.  Non-trivial = the "
         "sequence contains at least two different operation kinds and the field ends non-empty; distinct = the "
@@ -24,8 +25,8 @@ ANCHORS = ["PropertyDescriptor.__set__", "PropertyDescriptor._ensure_monitored_t
            "MonitoredList.extend", "MonitoredList.insert", "MonitoredList.__setitem__", "MonitoredSet.add",
            "MonitoredSet.update", "MonitoredContainer._on_add"]
 
-LIST_OPS = ["assign_new", "assign_self", "iadd", "append", "extend", "insert", "setitem", "setslice"]
-SET_OPS = ["assign_new", "assign_self", "ior", "add", "update"]
+LIST_OPS = ["assign_new", "assign_self", "iadd", "append", "extend", "insert", "setitem", "setslice", "extend_self", "iadd_alias"]
+SET_OPS = ["assign_new", "assign_self", "ior", "add", "update", "update_multi", "ior_alias"]
 # the argument of extend / += / slice assignment / update may be any iterable, also a one-shot one
 ARG_FORMS = ["list", "list", "tuple", "gen", "iter", "map", "reversed"]
 
@@ -87,7 +88,7 @@ def gen(rng, tier, ctx):
         vals = [rng.randrange(n_other) for _ in range(rng.randint(0, 3))]
         ops.append([op, vals, rng.randrange(8), rng.choice(ARG_FORMS)])
     return {"kind": kind, "n_other": n_other, "start": start, "start_form": rng.choice(["ctor", "assign", "append"]), "ops": ops,
-            "twins": rng.random() < 0.3}
+            "twins": rng.random() < 0.3, "odd": rng.random() < 0.2}
 
 
 def witnesses():
@@ -257,7 +258,9 @@ def run(spec, ctx):
     twins = bool(spec.get("twins"))
     if kind == "list":
         # twins: value-equal but distinct instances (names repeat)
-        others = [(om.VOrg(f"t{i % 2}") if twins else om.Org(f"o{i}")) for i in range(spec["n_other"])]
+        odd = bool(spec.get("odd")) and not twins
+        # odd: the elements are falsy (no members) and iterable organisations
+        others = [(om.VOrg(f"t{i % 2}") if twins else (om.Bag if odd else om.Org)(f"o{i}")) for i in range(spec["n_other"])]
         field, owner_name = "member_of", "p0"
     else:
         others = [(om.VPerson(f"t{i % 2}") if twins else om.Person(f"q{i}")) for i in range(spec["n_other"])]
@@ -268,7 +271,11 @@ def run(spec, ctx):
     model = list(start) if kind == "list" else set(start)
     ever = set(id(x) for x in model)
     mk = (lambda xs: list(xs)) if kind == "list" else (lambda xs: set(xs))
-    Owner = (om.VPerson if twins else om.Person) if kind == "list" else (om.VOrg if twins else om.Org)
+    odd = bool(spec.get("odd")) and not twins
+    if odd:
+        C["odd_cases"] += 1
+    # odd + set: the owner itself is falsy while it has no members
+    Owner = (om.VPerson if twins else om.Person) if kind == "list" else (om.VOrg if twins else (om.Bag if odd else om.Org))
     if spec["start_form"] == "ctor":
         owner = Owner(owner_name, **{field: mk(start)})
     else:
@@ -337,6 +344,32 @@ def run(spec, ctx):
             elif op == "extend":
                 cont.extend(as_argument(vals, form))
                 model.extend(vals)
+            elif op == "extend_self":
+                from vlib import common
+                try:
+                    with common.SubWatchdog(3.0):
+                        cont.extend(cont)
+                except common.StepTimeout:
+                    problems.append("extending the field by itself did not come back within 3 s (a list of "
+                                    f"{len(model)} elements)")
+                    break
+                model.extend(list(model))
+                vals = []
+                C["self_extends"] += 1
+            elif op == "iadd_alias":
+                alias = getattr(owner, field)       # the container under another name: no assignment follows
+                alias += as_argument(vals, form)
+                model = model + vals
+                C["alias_inplace_ops"] += 1
+            elif op == "ior_alias":
+                alias = getattr(owner, field)
+                alias |= set(vals)
+                model = model | set(vals)
+                C["alias_inplace_ops"] += 1
+            elif op == "update_multi":
+                cont.update(as_argument(vals[:1], form), vals[1:])
+                model.update(vals)
+                C["multi_argument_updates"] += 1
             elif op == "insert":
                 if not vals:
                     continue
